@@ -37,6 +37,7 @@ type replayCase struct {
 	Part          string      `json:"part"`
 	Class         string      `json:"class"`
 	FreshPerBlock bool        `json:"fresh_per_block"`
+	CacheLimit    *int        `json:"cache_height_limit,omitempty"` // the live node cache was on from this height upwards
 	Probes        []string    `json:"probes,omitempty"`
 	History       [][]tl.OpJ  `json:"history,omitempty"`
 	SDB           *sdbReplay  `json:"sdb,omitempty"`
@@ -99,6 +100,7 @@ func getAll(t *trie.Trie, m tl.Model, keys []tl.Key) string {
 type histOpts struct {
 	part, class   string
 	freshPerBlock bool
+	cacheLimit    *int // non-nil: Trie.CacheHeightLimit of the live instance (the node leaves the cache off; library users turn it on)
 	probes        []tl.Key
 	canon         func(tl.Model) ([]byte, error) // root of the model written in one batch on a fresh store
 	oldEvery      bool                           // check every earlier root after every batch (small histories)
@@ -120,7 +122,7 @@ func (ck *checker) runHistory(hist []tl.Batch, o histOpts) (store db.DB, snaps [
 		if upTo > len(hist) {
 			upTo = len(hist)
 		}
-		return replayCase{Part: o.part, Class: o.class, FreshPerBlock: o.freshPerBlock, Probes: pr,
+		return replayCase{Part: o.part, Class: o.class, FreshPerBlock: o.freshPerBlock, CacheLimit: o.cacheLimit, Probes: pr,
 			History: tl.HistoryJ(hist[:upTo]), Note: note}
 	}
 	viol := func(kind string, upTo int, desc string) {
@@ -137,6 +139,9 @@ func (ck *checker) runHistory(hist []tl.Batch, o histOpts) (store db.DB, snaps [
 	}()
 	store = tl.NewStore(ck.scratch)
 	t := tl.NewTrie(nil, store)
+	if o.cacheLimit != nil {
+		t.CacheHeightLimit = *o.cacheLimit
+	}
 	m := tl.Model{}
 	ever := map[tl.Key]bool{}
 	var everList []tl.Key
@@ -150,6 +155,13 @@ func (ck *checker) runHistory(hist []tl.Batch, o histOpts) (store db.DB, snaps [
 		at = i
 		if o.freshPerBlock {
 			t = tl.NewTrie(t.Root, store)
+			if o.cacheLimit != nil {
+				t.CacheHeightLimit = *o.cacheLimit
+				if err := t.LoadCache(t.Root); err != nil && len(t.Root) != 0 {
+					viol("load-cache-error", i+1, "LoadCache at the committed root returned "+err.Error())
+					return store, snaps, false
+				}
+			}
 		}
 		prevRoot := append([]byte(nil), t.Root...)
 		absentOnly := b.OnlyAbsentDeletes(m)
@@ -243,6 +255,26 @@ func (ck *checker) runHistory(hist []tl.Batch, o histOpts) (store db.DB, snaps [
 				return store, snaps, false
 			}
 			c.Count("gets_old_roots", len(keys))
+			if o.cacheLimit != nil {
+				// (d') the live, caching instance is pointed back at the earlier root the way StateDB.SetRoot does
+				// (Trie.Root = root, cache kept), read, and returned to the tip
+				d := func() (d string) {
+					cur := t.Root
+					defer func() {
+						t.Root = cur
+						if e := recover(); e != nil {
+							d = fmt.Sprint("panic while reading: ", e)
+						}
+					}()
+					t.Root = snaps[j].Root
+					return getAll(t, snaps[j].Model, keys)
+				}()
+				if d != "" {
+					viol("old-root-unreadable-cached-instance", i+1, fmt.Sprintf("root of batch %d read through the caching instance (CacheHeightLimit %d) after batch %d: %s", j, *o.cacheLimit, i, d))
+					return store, snaps, false
+				}
+				c.Count("gets_old_roots_cached_instance", len(keys))
+			}
 		}
 	}
 	return store, snaps, true
@@ -448,6 +480,13 @@ func (ck *checker) random() {
 		class := fmt.Sprintf("rand-%dk", tk.s.nKeys)
 		o := histOpts{part: "rand", class: class, probes: probes, canon: ck.canonFresh, oldEvery: tk.s.oldEvery,
 			oldSample: 2, keySample: 64, r: r, freshPerBlock: i%2 == 1}
+		// half of the histories run with the live node cache on (all levels, the top 24, the top 8); the decision
+		// and the limit come from the task index, so a seed determines them
+		if i%4 >= 2 {
+			lim := []int{0, 232, 248}[(i/4)%3]
+			o.cacheLimit = &lim
+			c.Count("random_histories_with_live_cache", 1)
+		}
 		store, snaps, ok := ck.runHistory(hist, o)
 		if !ok {
 			return
@@ -566,7 +605,7 @@ func (ck *checker) replay() {
 	}
 	r := c.Rand("replay")
 	_, snaps, ok := ck.runHistory(hist, histOpts{part: rc.Part, class: rc.Class, probes: probes, canon: ck.canonFresh,
-		oldEvery: true, freshPerBlock: rc.FreshPerBlock, r: r})
+		oldEvery: true, freshPerBlock: rc.FreshPerBlock, cacheLimit: rc.CacheLimit, r: r})
 	if ok && rc.Extra != nil && len(snaps) > 0 {
 		// alt-history case: Extra holds the second history
 		if raw, ok2 := rc.Extra.([]interface{}); ok2 {
